@@ -87,6 +87,7 @@ struct vs_shared {
   uint32_t nrec;
   uint32_t dropped;
   uint32_t fidx[2];
+  uint32_t fncount[2][64];    // calls per side and function (for faults addressed by ordinal of their function)
   int32_t nfaults;
   struct vs_fault faults[VS_MAXFAULT];
   int32_t child_loop;         // child-side close-loop state machine
